@@ -5,6 +5,15 @@ offset of -12h..+14h in 15 minute steps, arbitrary microseconds, before and afte
 bias towards millisecond boundaries and the epoch.  `Nest` puts a value at a generated nesting
 position (documents, OrderedDicts, lists, tuples, with filler siblings) and knows the dotted path
 that reaches it.
+
+Aggregation pipelines (follows the repair d1da933, "aggregate reads a datetime written in the
+pipeline as UTC milliseconds"): `VALUE_POSITIONS` puts a nested value holding a datetime at every
+position of a pipeline where a value can be written ($addFields / $set / $project+$literal /
+expression operands / $group keys and accumulator arguments / $facet sub-pipelines / $replaceRoot /
+$unwind of a written array / $out); `COMPARE_POSITIONS` compares a stored field with a written
+datetime ($eq .. $lte in both operand orders, $match+$expr, $match on a written field, $in,
+$subtract, $max / $min, $filter, $setUnion, $bucket boundaries, $lookup and
+$graphLookup on a written value); `COMPUTED_POSITIONS` lets an expression compute a datetime.
 """
 import collections
 import datetime as _dt
@@ -271,3 +280,288 @@ class ValueGen(object):
         n = self.r.choice([0, 1, 2, 3])
         items = [self.value(depth - 1) for _ in range(n)]
         return tuple(items) if self.r.random() < 0.25 else items
+
+
+# -- aggregation pipelines: a datetime written at every position --------------------------------
+
+CMP_OPS = ['$eq', '$ne', '$gt', '$gte', '$lt', '$lte']
+
+
+def spec_read(v, tz):
+    """what a client with this tz_aware setting is to see for a value that was written: the
+    stored form (spec_patch), aware UTC at every depth under tz_aware=True"""
+    v = spec_patch(v)
+    return spec_aware(v) if tz else v
+
+
+def is_read_form(d, tz):
+    return d.microsecond % 1000 == 0 and (is_aware_utc(d) if tz else d.tzinfo is None)
+
+
+def cmp_ms(op, a, b):
+    return {'$eq': a == b, '$ne': a != b, '$gt': a > b, '$gte': a >= b, '$lt': a < b,
+            '$lte': a <= b}[op]
+
+
+def _by_id(res, i):
+    return [x for x in res if x.get('_id') == i]
+
+
+# The collection `c` of an aggregation case holds
+#     {_id: 1, k: 'x', f: <stored datetime>, u: [<stored datetime>, 1]}
+#     {_id: 2, k: 'x', f: <decoy, year 2200>, u: []}
+# and the collection `o` (for $lookup / $graphLookup) {_id: 5, f: <stored>}, {_id: 6, f: <decoy>}.
+#
+# A value position: build(L, L2) -> (pipeline, locate); L, L2 are written values (any nesting);
+# locate(result, client) -> [(found, written)]: `found` must be the read form of `written`
+# ('$out': the stored form, looked up in the raw store).
+
+def _vp_add_fields(L, L2):
+    return [{'$addFields': {'l': L}}], lambda res, cl: [(x.get('l'), L) for x in res]
+
+
+def _vp_set(L, L2):
+    return [{'$set': {'g': {'l': L}}}], lambda res, cl: [(x.get('g', {}).get('l'), L) for x in res]
+
+
+def _vp_project_literal(L, L2):
+    return ([{'$project': {'l': {'$literal': L}}}],
+            lambda res, cl: [(x.get('l'), L) for x in res])
+
+
+def _vp_project_if_null(L, L2):
+    return ([{'$project': {'l': {'$ifNull': ['$nokey', L]}, 'm': {'$ifNull': [L2, 0]}}}],
+            lambda res, cl: [(x.get('l'), L) for x in res] + [(x.get('m'), L2) for x in res])
+
+
+def _vp_cond(L, L2):
+    return ([{'$project': {'l': {'$cond': [{'$eq': ['$_id', 1]}, L, L2]}}}],
+            lambda res, cl: [(x.get('l'), L if x['_id'] == 1 else L2) for x in res])
+
+
+def _vp_switch(L, L2):
+    return ([{'$project': {'l': {'$switch': {'branches': [{'case': {'$eq': ['$_id', 1]},
+                                                            'then': L}], 'default': L2}}}}],
+            lambda res, cl: [(x.get('l'), L if x['_id'] == 1 else L2) for x in res])
+
+
+def _vp_let(L, L2):
+    return ([{'$addFields': {'l': {'$let': {'vars': {'v': L}, 'in': '$$v'}}}}],
+            lambda res, cl: [(x.get('l'), L) for x in res])
+
+
+def _vp_array_ops(L, L2):
+    return ([{'$project': {'a': {'$arrayElemAt': [[L2, L], 1]},
+                           'c': {'$concatArrays': [[L], '$u', [L2]]},
+                           's': {'$slice': [[L2, L, 0], 1, 1]}}}],
+            lambda res, cl: [(x.get('a'), L) for x in res]
+            + [((x.get('c') or [None])[0], L) for x in res]
+            + [((x.get('c') or [None])[-1], L2) for x in res]
+            + [(x.get('s'), [L]) for x in res])
+
+
+def _vp_group_id(L, L2):
+    return [{'$group': {'_id': L, 'n': {'$sum': 1}}}], lambda res, cl: [(x.get('_id'), L)
+                                                                       for x in res]
+
+
+def _vp_group_id_doc(L, L2):
+    return ([{'$group': {'_id': {'k': '$k', 'd': L}, 'n': {'$sum': 1}}}],
+            lambda res, cl: [((x.get('_id') or {}).get('d'), L) for x in res])
+
+
+def _vp_group_acc(L, L2):
+    return ([{'$group': {'_id': '$k', 'p': {'$push': L}, 'fi': {'$first': L}, 'la': {'$last': L2}}}],
+            lambda res, cl: [((x.get('p') or [None])[0], L) for x in res]
+            + [((x.get('p') or [None])[-1], L) for x in res]
+            + [(x.get('fi'), L) for x in res] + [(x.get('la'), L2) for x in res])
+
+
+def _vp_group_acc_bare(L, L2):       # bare datetimes: $max / $min compare, $addToSet dedupes
+    return ([{'$group': {'_id': None, 'mx': {'$max': L}, 'mn': {'$min': L},
+                         'a': {'$addToSet': L}}}],
+            lambda res, cl: [(x.get('mx'), L) for x in res] + [(x.get('mn'), L) for x in res]
+            + [(x.get('a'), [L]) for x in res])
+
+
+def _vp_facet(L, L2):
+    return ([{'$facet': {'x': [{'$addFields': {'l': L}}],
+                         'y': [{'$limit': 1}, {'$project': {'l': {'$literal': L2}}}]}}],
+            lambda res, cl: [(x.get('l'), L) for x in res[0]['x']]
+            + [(x.get('l'), L2) for x in res[0]['y']])
+
+
+def _vp_replace_root(L, L2):
+    return ([{'$replaceRoot': {'newRoot': {'n': L, 'f': '$f'}}}],
+            lambda res, cl: [(x.get('n'), L) for x in res])
+
+
+def _vp_unwind(L, L2):
+    return ([{'$match': {'_id': 1}}, {'$addFields': {'l': [L, L2]}}, {'$unwind': '$l'}],
+            lambda res, cl: [(x.get('l'), w) for x, w in zip(res, [L, L2])]
+            + ([] if len(res) == 2 else [(None, L)]))
+
+
+def _vp_match_then(L, L2):           # the written value after a $match that already normalised
+    return ([{'$match': {'_id': {'$gte': 1}}}, {'$addFields': {'l': L}}, {'$sort': {'_id': -1}}],
+            lambda res, cl: [(x.get('l'), L) for x in res])
+
+
+def _vp_out(L, L2):
+    def locate(res, cl):
+        raw = list(cl.db.outc._store._documents.values())
+        return [(x.get('l'), L) for x in raw] + ([] if len(raw) == 2 else [(None, L)])
+    return [{'$addFields': {'l': L}}, {'$out': 'outc'}], locate
+
+# (name, shape, build)   shape 'any' = any nesting, 'bare' = the datetime itself
+VALUE_POSITIONS = [
+    ('$addFields', 'any', _vp_add_fields), ('$set nested', 'any', _vp_set),
+    ('$project $literal', 'any', _vp_project_literal),
+    ('$project $ifNull', 'any', _vp_project_if_null), ('$cond branch', 'any', _vp_cond),
+    ('$switch branch', 'any', _vp_switch), ('$let variable', 'any', _vp_let),
+    ('array operators', 'any', _vp_array_ops),
+    ('$group _id', 'any', _vp_group_id), ('$group _id document', 'any', _vp_group_id_doc),
+    ('$group $push $first $last', 'any', _vp_group_acc),
+    ('$group $max $min $addToSet', 'bare', _vp_group_acc_bare),
+    ('$facet sub-pipelines', 'any', _vp_facet), ('$replaceRoot', 'any', _vp_replace_root),
+    ('$unwind written array', 'any', _vp_unwind), ('after $match', 'any', _vp_match_then),
+    ('$out', 'any', _vp_out),
+]
+
+
+# A comparison position: build(X) -> (pipeline, observe); X = a bare datetime written in the
+# pipeline; observe(result) -> the observation; expect(ms_stored, ms_X, tz) -> what the rule
+# demands for it (ms_* = the milliseconds the stored field and X denote).
+
+def _cp_field_literal(X):
+    return ([{'$match': {'_id': 1}}, {'$project': dict((op[1:], {op: ['$f', X]}) for op in CMP_OPS)}],
+            lambda res: [res[0].get(op[1:]) for op in CMP_OPS] if len(res) == 1 else res)
+
+
+def _cp_literal_field(X):
+    return ([{'$match': {'_id': 1}}, {'$project': dict((op[1:], {op: [X, '$f']}) for op in CMP_OPS)}],
+            lambda res: [res[0].get(op[1:]) for op in CMP_OPS] if len(res) == 1 else res)
+
+
+def _cp_match_expr(X):
+    return ([{'$facet': dict((op[1:], [{'$match': {'$expr': {op: ['$f', X]}}},
+                                       {'$project': {'_id': 1}}]) for op in CMP_OPS)}],
+            lambda res: [[x['_id'] for x in res[0][op[1:]]] for op in CMP_OPS])
+
+
+def _cp_match_written(X):
+    # every document gets the written value as field `l`; the $match operand is the stored one
+    return ([{'$addFields': {'l': X}}, {'$match': {'l': {'$gte': '@stored', '$lte': '@stored'}}},
+             {'$project': {'_id': 1}}], lambda res: [x['_id'] for x in res])
+
+
+def _cp_in(X):
+    return ([{'$match': {'_id': 1}}, {'$project': {'x': {'$in': [X, '$u']},
+                                                   'y': {'$in': ['$f', [0, X]]}}}],
+            lambda res: [res[0].get('x'), res[0].get('y')] if len(res) == 1 else res)
+
+
+def _cp_subtract(X):
+    return ([{'$match': {'_id': 1}}, {'$project': {'x': {'$subtract': ['$f', X]},
+                                                   'y': {'$subtract': [X, '$f']}}}],
+            lambda res: [res[0].get('x'), res[0].get('y')] if len(res) == 1 else res)
+
+
+def _cp_max_min(X):
+    return ([{'$match': {'_id': 1}}, {'$project': {'mx': {'$max': ['$f', X]},
+                                                   'mn': {'$min': [X, '$f']}}}],
+            lambda res: [res[0].get('mx'), res[0].get('mn')] if len(res) == 1 else res)
+
+
+def _cp_filter(X):
+    return ([{'$match': {'_id': 1}},
+             {'$project': {'x': {'$filter': {'input': [X, 1, 'a'], 'as': 'i',
+                                             'cond': {'$eq': ['$$i', '$f']}}}}}],
+            lambda res: len(res[0].get('x')) if len(res) == 1 else res)
+
+
+def _cp_set_union(X):
+    return ([{'$match': {'_id': 1}}, {'$project': {'x': {'$setUnion': ['$u', [X]]}}}],
+            lambda res: len(res[0].get('x')) if len(res) == 1 else res)
+
+
+LO = _dt.datetime(1800, 1, 1)
+HI = _dt.datetime(2300, 1, 1)
+
+
+def _cp_bucket(X):
+    return ([{'$bucket': {'groupBy': '$f', 'boundaries': [LO, X, HI]}}],
+            lambda res: sorted((ms_of(x['_id']), x['count']) for x in res))
+
+
+def _cp_lookup(X):
+    return ([{'$match': {'_id': 1}}, {'$addFields': {'l': X}},
+             {'$lookup': {'from': 'o', 'localField': 'l', 'foreignField': 'f', 'as': 'j'}}],
+            lambda res: [x['_id'] for x in res[0]['j']] if len(res) == 1 else res)
+
+
+def _cp_graph_lookup(X):
+    return ([{'$match': {'_id': 1}},
+             {'$graphLookup': {'from': 'o', 'startWith': X, 'connectFromField': 'nokey',
+                               'connectToField': 'f', 'as': 'j'}}],
+            lambda res: [x['_id'] for x in res[0]['j']] if len(res) == 1 else res)
+
+
+def _exp_bucket(a, b, tz):
+    out = {}
+    for ms in (a, FAR_MS):                 # the stored datetime and the decoy (always after X)
+        key = b if ms >= b else ms_of(LO)
+        out[key] = out.get(key, 0) + 1
+    return sorted(out.items())
+
+# (name, build, expect(ms_stored, ms_X, tz)); `d` and `X` themselves are passed for $max / $min
+COMPARE_POSITIONS = [
+    ('field op literal', _cp_field_literal, lambda a, b, tz: [cmp_ms(op, a, b) for op in CMP_OPS]),
+    ('literal op field', _cp_literal_field, lambda a, b, tz: [cmp_ms(op, b, a) for op in CMP_OPS]),
+    ('$match $expr', _cp_match_expr,
+     lambda a, b, tz: [[i for i, ms in ((1, a), (2, FAR_MS)) if cmp_ms(op, ms, b)]
+                       for op in CMP_OPS]),
+    ('$match on a written field', _cp_match_written, lambda a, b, tz: [1, 2] if a == b else []),
+    ('$in', _cp_in, lambda a, b, tz: [a == b, a == b]),
+    ('$subtract', _cp_subtract, lambda a, b, tz: [a - b, b - a]),
+    ('$max $min', _cp_max_min,
+     lambda a, b, tz: [spec_read(from_ms(max(a, b)), tz), spec_read(from_ms(min(a, b)), tz)]),
+    ('$filter', _cp_filter, lambda a, b, tz: 1 if a == b else 0),
+    ('$setUnion', _cp_set_union, lambda a, b, tz: 2 if a == b else 3),
+    ('$bucket boundaries', _cp_bucket, _exp_bucket),
+    ('$lookup on a written field', _cp_lookup, lambda a, b, tz: [5] if a == b else []),
+    ('$graphLookup startWith', _cp_graph_lookup, lambda a, b, tz: [5] if a == b else []),
+]
+
+
+# A computed position: an expression builds a datetime; build(parts) -> (pipeline, observe);
+# parts = (year, month, day, hour, minute, second, millisecond); the rule: the datetime of that
+# instant in the read form of the client.
+
+def _kp_date_from_parts(parts):
+    names = ('year', 'month', 'day', 'hour', 'minute', 'second', 'millisecond')
+    return ([{'$match': {'_id': 1}},
+             {'$project': {'x': {'$dateFromParts': dict(zip(names, parts))}}}],
+            lambda res: res[0].get('x') if len(res) == 1 else res)
+
+
+def _kp_date_from_parts_cmp(parts):
+    names = ('year', 'month', 'day', 'hour', 'minute', 'second', 'millisecond')
+    return ([{'$match': {'_id': 1}},
+             {'$project': {'x': {'$lt': [{'$dateFromParts': dict(zip(names, parts))}, '$f']}}}],
+            lambda res: res[0].get('x') if len(res) == 1 else res)
+
+COMPUTED_POSITIONS = [
+    ('$dateFromParts', _kp_date_from_parts), ('$dateFromParts compared', _kp_date_from_parts_cmp),
+]
+
+
+def subst_stored(v, stored):
+    """replace the marker '@stored' by the stored datetime"""
+    if isinstance(v, dict):
+        return type(v)((k, subst_stored(x, stored)) for k, x in v.items())
+    if isinstance(v, list):
+        return [subst_stored(x, stored) for x in v]
+    if isinstance(v, tuple):
+        return tuple(subst_stored(x, stored) for x in v)
+    return stored if isinstance(v, str) and v == '@stored' else v
